@@ -39,6 +39,9 @@ const (
 type PrefixNameList map[Prefix]string
 
 func (prefixes PrefixNameList) addObjectType(prefix, objType string) {
+	// Properties are compared in lower case
+	prefix = strings.ToLower(prefix)
+
 	if objType == "" {
 		prefixes[OG] = prefix
 		return
